@@ -165,12 +165,15 @@ pub mod proofs {
             i += 1;
         }
         assert!(ad.is_exhausted());
+        // an exhausted source keeps yielding equilibrium frames: they are input like any other
+        let a = ad.next(); let d = direct.next([0.0]);
+        assert!(a[0].to_bits() == d[0].to_bits(), "P: after exhaustion the adaptor keeps feeding (equilibrium) source frames to the detector");
         let (src, det) = ad.into_parts();
-        assert!(src.pos == 3, "P: exactly one source frame pulled per output");
+        assert!(src.pos == 4, "P: exactly one source frame pulled per output");
         assert!(det.verif_gains() == direct.verif_gains() && det.verif_last_env()[0].to_bits() == direct.verif_last_env()[0].to_bits());
     }
     /// the rms adaptor feeds EACH source frame once, in order, to the running RMS
-    #[kani::proof] #[kani::unwind(5)]
+    #[kani::proof] #[kani::unwind(7)]
     pub fn c11_adaptor_rms() {
         let frames = [[dyadic(8, 8)], [dyadic(8, 8)], [dyadic(8, 8)]];
         let mut direct: Rms<[f32; 1], [[f32; 1]; 2]> = Rms::new(rb::Fixed::from([[0.0f32; 1]; 2]));
@@ -183,8 +186,13 @@ pub mod proofs {
         let a2 = ad.next(); let d2 = direct.next(frames[2]);
         assert!(a2[0].to_bits() == d2[0].to_bits(), "P: adaptor output == running RMS of the source frames");
         assert!(ad.is_exhausted());
+        // an exhausted source keeps yielding equilibrium frames: they enter the window like any other (the RMS decays)
+        let a3 = ad.next(); let d3 = direct.next([0.0]);
+        assert!(a3[0].to_bits() == d3[0].to_bits(), "P: after exhaustion the adaptor keeps feeding (equilibrium) source frames to the window");
+        let a4 = ad.next_squared(); let d4 = direct.next_squared([0.0]);
+        assert!(a4[0].to_bits() == d4[0].to_bits(), "P: after exhaustion the adaptor keeps feeding (equilibrium) source frames to the window");
         let (src, _r) = ad.into_parts();
-        assert!(src.pos == 3, "P: exactly one source frame pulled per output");
+        assert!(src.pos == 5, "P: exactly one source frame pulled per output");
     }
 
     // -------------------------------------------------------------------- windowed RMS (C11)
